@@ -301,7 +301,7 @@ func (e *Engine) takeSnapshot() {
 	}
 	// engine-side state keyed by cell addresses (mutexes, onces, objs) is only
 	// carried over when the initialisers created none, which is the normal case
-	if len(e.objs) > 0 || len(e.ws) > 0 || len(e.timers) > 0 || len(e.threads) > 1 {
+	if nonOnceObjs(e.objs) > 0 || len(e.ws) > 0 || len(e.timers) > 0 || len(e.threads) > 1 {
 		e.snapshotUnsafe = true
 		if os.Getenv("GOSYM_DEBUG") != "" {
 			fmt.Fprintf(os.Stderr, "snapshot disabled: mutexes=%d onces=%d objs=%d ws=%d timers=%d threads=%d\n", len(e.mutexes), len(e.onces), len(e.objs), len(e.ws), len(e.timers), len(e.threads))
@@ -334,4 +334,14 @@ func (e *Engine) restoreSnapshot() {
 	for k, v := range s.initDone {
 		e.initDone[k] = v
 	}
+}
+
+func nonOnceObjs(m map[interface{}]interface{}) int {
+	n := 0
+	for _, v := range m {
+		if _, ok := v.(*onceState); !ok {
+			n++
+		}
+	}
+	return n
 }
